@@ -9,5 +9,11 @@ from pyvc.extern import PStr, BA
                "returned store is the (immutable, cached) store holding it.  Concrete strings run the real body.")
 def str_to_bitstore(C, s):
     if isinstance(s, PStr):
-        return spec.mk_store(C, s.view, immutable=True)
+        # the memoised store: the same object for the same string for as long as it stays in the cache
+        st = getattr(s, 'cached_store', None)
+        if st is None:
+            st = spec.mk_store(C, s.view, immutable=True)
+            st.cached = True
+            s.cached_store = st
+        return st
     return INLINE
